@@ -462,28 +462,38 @@ def qr_move_scp(asce, ctx, msg):
         _send_response(asce, ctx, msg, 0, 0, 0, 0)
         return
 
-    with asce.ae.request_association(remote_ae) as assoc:
-        failed = 0
-        warning = 0
-        completed = 0
-        for data_set in gen:
-            # request an association with destination send C-STORE
-            service = assoc.get_scu(data_set.SOPClassUID)
-            status = service(data_set, completed)
-            if status.is_failure:
-                failed += 1
-            if status.is_warning:
-                warning += 1
-            completed += 1
-            rsp.status = int(statuses.C_MOVE_PENDING)
-            rsp.num_of_remaining_sub_ops = nop - completed
-            rsp.num_of_completed_sub_ops = completed
-            rsp.num_of_failed_sub_ops = failed
-            rsp.num_of_warning_sub_ops = warning
+    failed = 0
+    warning = 0
+    completed = 0
+    final_sent = False
+    try:
+        with asce.ae.request_association(remote_ae) as assoc:
+            for data_set in gen:
+                # request an association with destination send C-STORE
+                service = assoc.get_scu(data_set.SOPClassUID)
+                status = service(data_set, completed)
+                if status.is_failure:
+                    failed += 1
+                if status.is_warning:
+                    warning += 1
+                completed += 1
+                rsp.status = int(statuses.C_MOVE_PENDING)
+                rsp.num_of_remaining_sub_ops = nop - completed
+                rsp.num_of_completed_sub_ops = completed
+                rsp.num_of_failed_sub_ops = failed
+                rsp.num_of_warning_sub_ops = warning
 
-            # send response
-            asce.send(rsp, ctx.id)
-        _send_response(asce, ctx, msg, nop, failed, warning, completed)
+                # send response
+                asce.send(rsp, ctx.id)
+            _send_response(asce, ctx, msg, nop, failed, warning, completed)
+            final_sent = True
+    except exceptions.NetDICOMError:
+        if final_sent:
+            raise
+        # destination refused the association, can not be reached or
+        # association with it was lost: C-MOVE still has to be answered
+        _send_response(asce, ctx, msg, nop, failed, warning, completed,
+                       statuses.C_MOVE_UNABLE_TO_PROCESS)
 
 
 def _send_response(asce, ctx, msg, nop, failed, warning, completed, status=statuses.SUCCESS):
